@@ -40,8 +40,8 @@ void configure(Trainer& t, Cfg const& c, double eps) {
 template<class Trainer>
 void report(Cfg const& c, Trainer& t, KernelExpansion<RealVector> const& f) {
 	QpSolutionProperties const& p = t.solutionProperties();
-	std::printf("R %s %d %llu %a %a %zu", c.id.c_str(), (int)p.type, p.iterations, p.value, p.accuracy, f.offset().size());
-	std::printf(" %a", f.offset().size() ? f.offset()(0) : 0.0);
+	std::printf("R %s %d %llu %a %a %zu", c.id.c_str(), (int)p.type, p.iterations, p.value, p.accuracy, (std::size_t)(f.hasOffset() ? 1 : 0));
+	std::printf(" %a", f.hasOffset() ? f.offset()(0) : 0.0);
 	std::printf(" %zu", f.alpha().size1());
 	for (std::size_t i = 0; i < f.alpha().size1(); i++) std::printf(" %a", f.alpha()(i, 0));
 	std::printf("\n");
